@@ -1311,6 +1311,10 @@ func c13Run(c *core.Ctx) *core.Result {
 	case "strict", "record":
 		tolerant := p.Xeh == "record"
 		opts = append(opts, fs.WithXAttrErrorHandler(func(dst, src, key string, err error) error {
+			if !filepath.IsAbs(dst) {
+				// (destination root spelled ".": relative to dstDir)
+				dst = filepath.Join(dstDir, dst)
+			}
 			xehCalls = append(xehCalls, xehCall{dst, src, key})
 			if err == nil {
 				xehNilErr++
@@ -1326,6 +1330,15 @@ func c13Run(c *core.Ctx) *core.Result {
 	dstRootArg := dstDir + core.Pick(core.NewRand(core.Mix(c.Seed, "C13-dstroot-spelling", c.Index)), []string{"", "", "", "/", "/.", "//", "/./"})
 	if dstRootArg != dstDir {
 		r.Count("destination_roots_spelled_unclean", 1)
+	}
+	if wr := core.NewRand(core.Mix(c.Seed, "C13-dstroot-cwd", c.Index)); wr.P(1, 12) && filepath.IsAbs(srcDir) {
+		// the destination root is the working directory (cases run one at a
+		// time in this process; umask is process-wide too)
+		if wd, err := os.Getwd(); err == nil && os.Chdir(dstDir) == nil {
+			defer os.Chdir(wd)
+			dstRootArg = core.Pick(wr, []string{".", "./", "./."})
+			r.Count("destination_root_is_the_working_directory", 1)
+		}
 	}
 	cerr := fs.Copy(context.Background(), srcDir, p.Src, dstRootArg, p.Dst, opts...)
 	syscall.Umask(old)
